@@ -304,6 +304,8 @@ func (e *Engine) programChecks(id string) []*Oblig {
 		return e.c17Obligations(id)
 	case "C18":
 		return e.c18Obligations(id)
+	case "C19":
+		return e.c19Obligations(id)
 	case "C16", "C08":
 		// Only emit/emitError send on a lexer's token channel, only run closes it; hence the ghost
 		// log maintained by their contracts is the complete output of the lexer.
